@@ -46,6 +46,22 @@ class GameModel:
             if isinstance(n, ast.Assign) and len(n.targets) == 1 and isinstance(n.targets[0], ast.Name) \
                     and isinstance(n.value, ast.Constant) and isinstance(n.value.value, int):
                 self.consts[n.targets[0].id] = n.value.value
+            elif isinstance(n, ast.Assign) and len(n.targets) == 1 and isinstance(n.targets[0], ast.Name):
+                # X = Enum.MEMBER or int(Enum.MEMBER): a member of a package IntEnum is its integer
+                v = n.value.args[0] if isinstance(n.value, ast.Call) and isinstance(n.value.func, ast.Name) and n.value.func.id == "int" and len(n.value.args) == 1 else n.value
+                q = prog.resolve(self.mod, v) if isinstance(v, ast.Attribute) else None
+                named, val = prog.named_constant(q) if q else (False, None)
+                if named and type(val) is int:
+                    self.consts[n.targets[0].id] = val
+            elif isinstance(n, ast.Assign) and len(n.targets) == 1 and isinstance(n.targets[0], ast.Tuple) and all(isinstance(t, ast.Name) for t in n.targets[0].elts) \
+                    and isinstance(n.value, ast.Call) and isinstance(n.value.func, ast.Name) and n.value.func.id == "map" and len(n.value.args) == 2 \
+                    and isinstance(n.value.args[0], ast.Name) and n.value.args[0].id == "int":
+                # a, b, c = map(int, Enum): the members in definition order
+                q = prog.resolve(self.mod, n.value.args[1])
+                members = prog.int_enum_members(prog.chase(q)) if q else None
+                if members is not None and len(members) == len(n.targets[0].elts):
+                    for t, val in zip(n.targets[0].elts, members.values()):
+                        self.consts[t.id] = val
 
     def method(self, name: str) -> FuncRef:
         if name not in self.methods:
@@ -293,8 +309,10 @@ def _check_selection_helper(prog: Program, col: Collector, gm) -> None:
         return
     ref = gm.methods["_filter_out_coalitions"]
     ft = fterms(prog, ref)
-    pp = ref.positional_params()
-    vals, coals = ("param", pp[1]), ("param", pp[2])
+    pp = [x for x in ref.positional_params() if x != "self"]        # a method, or a @staticmethod without self
+    if len(pp) < 2:
+        raise AnalysisError("_filter_out_coalitions does not take (values, coalitions)")
+    vals, coals = ("param", pp[0]), ("param", pp[1])
     rets = list(ft.of_kind("return"))
     none_test = ("cmp", "is", coals, ("const", None))
     # the function as one formula (early returns folded, helpers read through): vals if coalitions is None else vals[ids]
@@ -496,10 +514,28 @@ def rule_c17_copy_neg_init(prog: Program, col: Collector) -> None:
     rtable = ("attr", retv, "_values")
     st = gm.stores(ref, rtable)
     got = {}
+
+    def col_list(t, table):
+        """[c1, c2] when t is table[:, [k1, k2]] (one fancy-indexed access of two columns), else None."""
+        if t[0] == "index" and t[1] == table and t[2][0] == "tuple" and len(t[2][1]) == 2 and t[2][1][0][0] == "slice" and t[2][1][1][0] == "list":
+            cs = [gm.col_value(x) for x in t[2][1][1][1]]
+            return cs if all(c is not None for c in cs) else None
+        return None
+    swapped = False
     for ev, a in st:
-        if a is None:
+        if a is None or a[1] is None:
+            # both columns in one simultaneous assignment: ret[:, [l, u]] = -self[:, [u, l]] (the right side is read completely, from self, before the write)
+            dst = col_list(ev.target, rtable)
+            srcs = col_list(ev.value[2], TABLE) if ev.kind == "store" and ev.value[0] == "un" and ev.value[1] == "-" else None
+            if dst is not None and srcs is not None and len(dst) == len(srcs) == 2:
+                pairs = dict(zip(dst, srcs))
+                col.check(pairs == {L: U, U: L}, ref.where(ev.node), ref.short, "__neg__: lower <- -upper and upper <- -lower in one assignment, read from SELF",
+                          construct="neg-swap", necessity="reading from the half-updated copy (swap hazard) or not swapping makes lower > upper and breaks the involution")
+                swapped = True
             continue
         got[a[1]] = ev
+    if swapped and not got:
+        got = {L: None, U: None}
     col.check(set(got) == {L, U}, ref.where(), ref.short, f"__neg__ writes the two bound columns of the copy and not the known column (wrote {sorted(map(str, got))})",
               construct="neg-cols", necessity="negation keeps knowledge")
     for dst, srcc, nm in ((L, U, "lower <- -upper"), (U, L, "upper <- -lower")):
